@@ -3,7 +3,7 @@ import os, sys, json, re
 from vlib import *
 
 PROP = 'C09'
-IMPORTS = 'Base.F32 Model.Ops Model.Expr Model.Typing Corr.C09'
+IMPORTS = 'Base.F32 Model.Ops Model.Expr Model.TypeCheck Corr.C09'
 KINDS = ('PROG', 'CTY', 'DYN')
 
 ENTRY = 'entry { path: "a.png", has_data: false, img_width: 16, img_height: 16, img_format: 1, sprites: {} }\n'
@@ -64,7 +64,7 @@ def run_text(v, text, seed, name, mode='text'):
 def table_status(v):
     """vm_compute of the side conditions on the generated tables"""
     path = os.path.join(WORK, 'c09', 'status.v'); os.makedirs(os.path.dirname(path), exist_ok=True)
-    open(path, 'w').write('From TV Require Import Base.I32 Model.Typing Spec.TypingRules Corr.C09.\n'
+    open(path, 'w').write('From TV Require Import Base.I32 Model.TypeCheck Spec.TypingRules Corr.C09.\n'
                           'Goal True. let r := eval vm_compute in table_status in idtac "@@STATUS" r. exact I. Qed.\n')
     rc, o = sh(['coqc', '-noglob', '-Q', os.path.join(COQ, 'theories'), 'TV', path], timeout=900, cwd=os.path.dirname(path))
     m = re.search(r'@@STATUS\s*\((.*)\)\s*$', o.strip(), re.S)
@@ -76,6 +76,35 @@ def table_status(v):
     nums = lambda s: [int(x) for x in re.findall(r'(\d+)%N', s)]
     return {'optypes_ok': mm.group(1) == 'true', 'walk_ok': mm.group(2) == 'true', 'bad_srows': nums(mm.group(3)),
             'bad_irows': nums(mm.group(4)), 'ct_enum': mm.group(5), 'call_zip': mm.group(6)}
+
+def eval_verdicts(cases, shard):
+    """vm_compute of Corr.C09.verdicts on the cases, sharded over up to 16 coqc processes; returns (list of N per case, errors)"""
+    import subprocess, shutil, time
+    d = os.path.join(WORK, 'cases_C09'); shutil.rmtree(d, ignore_errors=True); os.makedirs(d)
+    shards = [cases[i:i + shard] for i in range(0, len(cases), shard)]
+    results, errors = [None] * len(shards), []
+    def launch(k):
+        path = os.path.join(d, 's%d.v' % k)
+        with open(path, 'w') as f:
+            f.write('From TV Require Import Base.I32 %s.\nOpen Scope Z_scope.\nDefinition cases : list c09case := [\n' % IMPORTS)
+            f.write(';\n'.join(shards[k]))
+            f.write('\n].\nGoal True. let r := eval vm_compute in (verdicts 0%N cases) in idtac "@@RESULT" r. exact I. Qed.\n')
+        return subprocess.Popen(['timeout', '1800', 'coqc', '-noglob', '-Q', os.path.join(COQ, 'theories'), 'TV', path],
+                                cwd=d, stdout=subprocess.PIPE, stderr=subprocess.STDOUT, text=True)
+    pending, running = list(range(len(shards))), {}
+    while pending or running:
+        while pending and len(running) < 16:
+            k = pending.pop(0); running[k] = launch(k)
+        for k, p in list(running.items()):
+            if p.poll() is not None:
+                out = p.stdout.read(); del running[k]
+                m = re.search(r'@@RESULT\s*(.*)', out, re.S)
+                nums = [int(x) for x in re.findall(r'(\d+)%N', m.group(1))] if m else []
+                if p.returncode != 0 or not m or len(nums) != len(shards[k]):
+                    errors.append('shard %d: coqc failed: %s' % (k, out.strip()[-600:])); nums = [None] * len(shards[k])
+                results[k] = nums
+        time.sleep(0.05)
+    return [x for r in results for x in r], errors
 
 def decode_codes(n):
     return [k for k in range(0, 40) if (n >> k) & 1]
@@ -129,7 +158,7 @@ def main(argv):
             lines += run_harness(v, ['text', f], seed, timeout=300)
         for f in sorted(glob.glob(os.path.join(VERIF, 'corpus', 'C09', '*.ecl'))):
             lines += run_harness(v, ['ecl10', f], seed, timeout=300)
-        nprog, maxmut, cli = (70, 8, 30) if tier == 'quick' else (2500, 0, 1500)
+        nprog, maxmut, cli = (120, 10, 40) if tier == 'quick' else (600, 0, 400)
         if os.environ.get('C09_GEN'): nprog, maxmut, cli = [int(x) for x in os.environ['C09_GEN'].split(',')]
         lines += run_harness(v, ['gen', nprog, maxmut, cli], seed)
     if h_ok and replay:
@@ -154,24 +183,20 @@ def main(argv):
     for k in kinds: hist[k] = hist.get(k, 0) + 1
     base_rejected = [n for n in notes if n and n[0] == 'base program rejected']
 
-    shard = 120 if tier == 'quick' else 250
+    shard = 200 if tier == 'quick' else 400
     mism, smism, explained = [], [], {}
     if v.corr_ok and cases:
-        # (X) model (with the tables read from the source) vs implementation
-        mism, errs = coq_eval_cases(PROP, IMPORTS, 'c09case', cases, shard=shard)
+        # one pass inside Coq: (X) model (with the tables read from the source) vs implementation; (O) reference
+        # typer (the declarative relation, decided) vs implementation; the explanation of every (O) difference
+        verd, errs = eval_verdicts(cases, shard)
+        mism = [i for i, x in enumerate(verd) if x is not None and x & 1]
+        smism = [i for i, x in enumerate(verd) if x is not None and x & 2]
+        explained = {i: decode_codes(verd[i] >> 2) for i in smism}
         v.obligation('correspondence: model = implementation on %d cases (vm_compute inside Coq)' % len(cases), not mism and not errs,
                      ('%d mismatches; ' % len(mism)) + '; '.join(errs)[:600] if (mism or errs) else '')
-        # (O) reference typer (the declarative relation, decided) vs implementation
-        smism, serrs = coq_eval_cases(PROP + 's', IMPORTS, 'c09case', cases, check_fn='spec_mismatches', shard=shard)
-        if serrs: v.obligation('reference typer evaluated', False, '; '.join(serrs)[:600])
-        sub = smism[:400]
-        if sub:
-            codes, cerrs = coq_eval_cases(PROP + 'x', IMPORTS, 'c09case', [cases[i] for i in sub], check_fn='explain_all', shard=len(sub))
-            if len(codes) == len(sub):
-                for i, c in zip(sub, codes): explained[i] = decode_codes(c)
-        unexplained = [i for i in smism if i in explained and not explained[i]] + ([] if len(explained) == len(sub) else sub)
+        unexplained = [i for i in smism if not explained[i]]
         v.obligation('oracle: type_check = reference typer (wt decided by the specified tables) on %d cases, or the difference lies in a table row that is not as specified' % len(cases),
-                     not unexplained, '%d unexplained' % len(unexplained) if unexplained else '')
+                     not unexplained and not errs, '%d unexplained' % len(unexplained) if unexplained else '')
         # panics of later passes on accepted programs, keyed by source text
         later = {}
         for f in oracle_fail:
@@ -185,11 +210,11 @@ def main(argv):
                 rep = {'kind': kinds[i], 'source_text': texts[i].replace('\\n', '\n') if kinds[i] == 'PROG' else None, 'case': cases[i], 'tag': tags[i]}
                 if texts[i] in later: rep['later_pass_panic'] = later[texts[i]]
                 found(code_class(c), what, rep)
-        for i in unexplained[:3]:
+        for i in sorted(unexplained, key=lambda i: len(cases[i]))[:3]:
             v.violation('type_check disagrees with the typing rules and every table row the program uses is as specified (%s case)' % kinds[i],
                         {'class': 'c09-spec:' + kinds[i], 'kind': kinds[i], 'case': cases[i], 'source': texts[i], 'tag': tags[i],
                          'source_text': texts[i].replace('\\n', '\n') if kinds[i] == 'PROG' else None})
-        for i in mism[:5]:
+        for i in sorted(mism, key=lambda i: len(cases[i]))[:3]:
             v.violation('model/implementation disagreement on a %s case' % kinds[i],
                         {'class': 'c09-corr:' + kinds[i], 'kind': kinds[i], 'case': cases[i], 'source': texts[i], 'tag': tags[i],
                          'source_text': texts[i].replace('\\n', '\n') if kinds[i] == 'PROG' else None, 'broken': 'correspondence Corr.C09.model_of'},
@@ -231,8 +256,6 @@ def main(argv):
     elif unrec and not v.violations:
         v.violation('translator no longer recognises the type checker: %s' % unrec[:3],
                     {'class': 'c09-tie1', 'broken': unrec}, no_failing_input=not classes)
-    elif base_rejected and not v.violations and not replay:
-        v.violation('a program generated as well-typed is rejected by type_check', {'class': 'c09-base-rejected', 'source_text': base_rejected[0][1].replace('\\n', '\n'), 'detail': base_rejected[0]})
     else:
         bad = [o for o in v.obligations if not o[1] and not o[0].startswith('side condition') and not o[0].startswith('oracle: type_check = reference')]
         if bad and not v.violations:
@@ -242,12 +265,13 @@ def main(argv):
     v.coverage.update({
         'evaluations': len(cases),
         'distinct_nontrivial': distinct_count([c for c, k in zip(cases, kinds) if k == 'PROG' or 'IOk' in c[-30:]]),
-        'rule': 'gen: type-directed generator of well-typed ANM programs over all statement kinds (items, functions, consts, declarations, assignments with every assign-op, calls with pseudo-args/blobs/aliases/user functions, conditional chains, loops, while/do-while, times with and without clobber, free blocks, labels, time labels, interrupt labels, jumps, returns; nesting depth <= 6), each followed by its single-point mutants (operand, variable, literal, sigil, cast, argument, arity, declared type, void/value) at every mutation point (quick: a seeded sample of 10 per program) -> parse/assign_languages/resolve_names, then passes::type_check::run under catch_unwind (Ok/Err/panic only) vs Model.Typing.check_file on the resolved AST; accepted statement-level expressions through Expr::compute_ty and AstVm::eval(..).ty() vs compute_ty / eval of the model. distinct = distinct case terms; non-trivial = a whole program, or an expression for which the implementation produced a type',
+        'rule': 'gen: type-directed generator of well-typed ANM programs over all statement kinds (items, functions, consts, declarations, assignments with every assign-op, calls with pseudo-args/blobs/aliases/user functions, conditional chains, loops, while/do-while, times with and without clobber, free blocks, labels, time labels, interrupt labels, jumps, returns; nesting depth <= 6), each followed by its single-point mutants (operand, variable, literal, sigil, cast, argument, arity, declared type, void/value) at every mutation point (quick: a seeded sample of 10 per program) -> parse/assign_languages/resolve_names, then passes::type_check::run under catch_unwind (Ok/Err/panic only) vs Model.TypeCheck.check_file on the resolved AST; accepted statement-level expressions through Expr::compute_ty and AstVm::eval(..).ty() vs compute_ty / eval of the model. distinct = distinct case terms; non-trivial = a whole program, or an expression for which the implementation produced a type',
         'traces_validated_against_impl': len(cases),
         'case_kinds': hist,
         'spec_disagreements_explained_by_table_rows': {code_class(c): sum(1 for i in explained if c in explained[i]) for c in sorted(set(x for i in explained for x in explained[i]))},
         'later_pass_panics_on_programs_the_reference_typer_accepts': later_on_well_typed,
         'table_status': status,
+        'base_programs_rejected_by_type_check': len(base_rejected),
         'generator_stats': stats,
         'samples': [{'kind': k, 'case': c[:600], 'source': t[:300]} for k, c, t in list(zip(kinds, cases, texts))[:1] + list(zip(kinds, cases, texts))[-3:]],
         'exhaustive': False,
@@ -255,7 +279,7 @@ def main(argv):
     return v.finish(
         level='proof',
         checker_cmd='gen/opclass.py gen/tcdispatch.py gen/optable.py ; cd coq && make theories/Corr/C09.vo theories/Props/C09.vo ; coqc work/audit_C09.v (Print Assumptions) ; coqc work/c09/status.v (side conditions by vm_compute) ; harness/target/debug/c09 gen|text|ecl10 ; coqc work/cases_C09*/*.v',
-        trusted_base=['modelled, not verified: Model/Typing.v is a hand-written restatement of passes/type_check.rs (check_expr, compute_ty, check_stmt_*, the Visitor) and of ast::walk_stmt/walk_item; its operator and dispatch tables are read from the source on every run',
+        trusted_base=['modelled, not verified: Model/TypeCheck.v is a hand-written restatement of passes/type_check.rs (check_expr, compute_ty, check_stmt_*, the Visitor) and of ast::walk_stmt/walk_item; its operator and dispatch tables are read from the source on every run',
                       'Spec/TypingRules.v (the declarative typing relation) is the meaning of "well-typed"',
                       'Flocq binary32 and the C11 operator table Gen/OpTable.v for static_is_dynamic (AstVm evaluation)'],
         assumptions=['names are resolved (DefIds); the typing environment is the flat map DefId/register/function -> type that resolve_names and the mapfiles build',
